@@ -9,6 +9,7 @@ mirrors has changed: the check then looks for a behavioural difference (replay) 
 -/
 import JediVerif.Properties.Mirrors.C01
 import JediVerif.Properties.Mirrors.C02
+import JediVerif.Properties.Mirrors.C03
 import JediVerif.Properties.Mirrors.C06
 import JediVerif.Properties.Mirrors.C07
 import JediVerif.Properties.Mirrors.C08
